@@ -97,10 +97,20 @@ type advResult struct {
 	leak      bool
 }
 
+// vSysTimeout: a receive time-out as the system call itself reports it (a socket
+// with a receive time-out, EAGAIN): a net.Error whose Timeout() is true AND a
+// *os.SyscallError underneath.
+var vSysTimeout error = &net.OpError{Op: "read", Net: "ip6:ipv6-icmp", Err: os.NewSyscallError("recvmsg", syscall.EAGAIN)}
+
+// vIsTimeout: the text of a recorded receive error is one of the time-out shapes.
+func vIsTimeout(s string) bool { return s == vfake.ErrTimeout.Error() || s == vSysTimeout.Error() }
+
 func vErrOf(kind string) error {
 	switch kind {
 	case "timeout":
 		return vfake.ErrTimeout
+	case "timeout-sys":
+		return vSysTimeout
 	case "syscall":
 		return vfake.ErrSyscall
 	case "nobufs":
@@ -388,7 +398,7 @@ func advAnalyze(c *advCase, ev []vfake.Event) *advFacts {
 					}
 				}
 			}
-			if _, ok := f.genEnd[g]; !ok && (e.Kind == "link_event" || e.Err != vfake.ErrTimeout.Error()) {
+			if _, ok := f.genEnd[g]; !ok && (e.Kind == "link_event" || !vIsTimeout(e.Err)) {
 				f.genEnd[g] = e.T
 			}
 		case "write_end":
